@@ -15,3 +15,9 @@ Check (C06_returns : forall c exempt, cfg_ok c exempt = true ->
 Check (C06_repaired_inputs :
   cfg_case E0 f2_prog = 1%Z /\ cfg_case E0 f2b_prog = 1%Z /\ cfg_case E0 f14_prog = 1%Z /\ cfg_case E0 f18_prog = 1%Z).
 Check (C06_checker_rejects).
+Check (C06_builder_frame : forall E cb s,
+  let s' := snd (walk_callback E cb s) in
+  (exists more, bs_locals s' = bs_locals s ++ more) /\
+  List.length (bs_blocks s) <= List.length (bs_blocks s') /\
+  (forall i b, nth_error (bs_blocks s) i = Some b -> b_term b <> None -> nth_error (bs_blocks s') i = Some b) /\
+  (exists more, bs_diags s' = bs_diags s ++ more)).
